@@ -22,7 +22,7 @@ GEN_PATH = os.path.join(LEAN, "Generated", "RvSem.lean")
 ISA_TAG = {"rv32": "rv32i", "rv64": "rv64i"}
 
 # (isa, mnemonic) without an `i_` function; must mirror Amoco.Rv.Props.noSemantics
-NO_SEMANTICS = {("rv32", "EBREAK"), ("rv64", "EBREAK")} | {("rv64", m) for m in rv_ref.ONLY64}
+NO_SEMANTICS = {("rv32", "EBREAK"), ("rv64", "EBREAK")}
 
 
 # -----------------------------------------------------------------------------------------------
